@@ -1194,13 +1194,19 @@ class Engine:
         o = self._ob("nocrash")
         o["checked"] += 1
         r = self.check()
+        model = self.model() if r == z3.sat else None
+        if r == z3.sat and self.mulmode == "uf":
+            # the path to the crash may only exist under the uninterpreted products: re-derive it
+            # with the true products; unsat => the crash path is an artefact of the abstraction
+            r, model = self._refine(z3.BoolVal(True), model, "nocrash")
         if r == z3.sat:
             o["failed"] += 1
             info = dict(exception=type(ex).__name__, message=str(ex)[:300], site=site)
             if len(o["cex"]) < 6 and not builtins.any(c["info"]["site"] == site and c["info"]["exception"] == info["exception"] for c in o["cex"]):
-                o["cex"].append(self._cex(self.model(), "nocrash", info))
+                o["cex"].append(self._cex(model, "nocrash", info))
         elif r == z3.unsat:
             self.stats.inc("vacuous")
+            o["checked"] -= 1
         else:
             o["unknown"] += 1
             self.unknown.append(("crash", site))
